@@ -130,8 +130,13 @@ def make_run(run, schedule, policy, max_steps):
         run.job2 = job2
 
         def requester():
-            a1 = jc.add_job(job, 'first')
-            jc.add_job(job2, 'second')
+            if run.scenario == 'background':
+                # the first job runs in the background (spawn_job), the second is the active foreground job
+                jc.spawn_job(job, 'first')
+                jc.add_job(job2, 'second')
+            else:
+                jc.add_job(job, 'first')
+                jc.add_job(job2, 'second')
             run.phase = 'started'
             s.mark('started')
             s.point(('stop-call',))
@@ -142,6 +147,8 @@ def make_run(run, schedule, policy, max_steps):
                     r = jc.stop_current()
                 elif run.stop_kind == 'stop_job':
                     r = jc.stop_job('first')
+                elif run.stop_kind == 'stop_background':
+                    r = jc.stop_background()
                 else:   # the real WebApp.stop_all, on an object that has just the controller
                     import types
                     from web.web_app import WebApp
@@ -354,6 +361,19 @@ def judge(run, s, outcome):
         if bad:
             out.append(('C09/late-stop-poisons-next-run' if late_stop else 'C09/stop-affects-later-run',
                         'a later run of the same job %s%s' % (bad, '; the stop request arrived while the first run was finishing (after its clock.stop())' if late_stop else '')))
+    if run.scenario == 'background':
+        # the background job is the target; the foreground job next to it is not touched
+        got1, got2 = ndev.get('J1', 0), ndev.get('J2', 0)
+        targets = facts['targets']
+        if 'second' in targets:
+            out.append(('C09/stop-hit-wrong-job', 'a stop aimed at the background job was delivered to the foreground job'))
+        if 'first' not in targets:
+            facts['undelivered'] = True
+            if alive.get('J1') and COMPLETE[run.shape] is None and not run.result.get('stop_raised'):
+                out.append(('C09/background-stop-not-delivered', 'the stop request (%s) reached no job although the background job was running next to an active foreground job (returned %r)'
+                            % (run.stop_kind, run.result.get('stop_returned'))))
+        if 'J2' in threads and not alive.get('J2') and 'second' not in targets and got2 != SECOND_COMPLETE:
+            out.append(('C09/stop-affects-other-job', 'the foreground job issued %d of its %d device commands after the background job was stopped' % (got2, SECOND_COMPLETE)))
     if run.scenario == 'control':
         got1, got2 = ndev.get('J1', 0), ndev.get('J2', 0)
         q_len = len(list(run.jc.get_queued()))
@@ -684,6 +704,9 @@ def run(ctx):
             combos = [(b, c) for b in bases for c in conts] if thorough else [(bases[(i + j) % 3], conts[(i + 2 * j) % 3])]
             for (b, c) in combos:
                 plan.append(('control', shape, kind, b, c, 1 if (thorough or (kind == 'stop_all' and shape == 'straight')) else 3))
+    for i, kind in enumerate(['stop_job', 'stop_background']):
+        for j, shape in enumerate(shapes if thorough else ['repeat', 'time-at']):
+            plan.append(('background', shape, kind, bases[(i + j) % 3], conts[(i + 2 * j) % 3], 1 if thorough else 4))
     for (scenario, shape, kind, b, c, stride) in plan:
         base, started = base_run(scenario, shape, kind, b)
         if started is None:
@@ -714,6 +737,8 @@ def run(ctx):
         scenario = 'agent' if i % 2 == 0 else 'control'
         shape = shapes[i % len(shapes)]
         kind = 'request_stop' if scenario == 'agent' else ['stop_current', 'stop_job', 'stop_all'][(i // 2) % 3]
+        if i % 7 == 6:
+            scenario, kind = 'background', ['stop_job', 'stop_background'][(i // 7) % 2]
         L = rng.choice([40, 80, 150, 250])
         sched = [rng.randrange(1 << 16) for _ in range(L)]
         run = Run(scenario, shape, kind)
